@@ -79,6 +79,13 @@ def body_zero_fill(S, spec):
     op = spec["op"]
     if op == "fuse":
         g = spec["groups"]
+        # history: an ordinary float64 array of the same structure is fused first (the symbolic / single-precision one
+        # must not inherit anything - such as the dtype of freshly created zero blocks - from that earlier call)
+        import random as _r
+        from vlib.session import Session as _Sess
+        warm = build(_Sess("num", rng=_r.Random(5)), dict(spec["a"], name="w"))
+        for mode in ((None,) if fermionic else ("insert", "concat")):
+            (warm.fuse(*g) if mode is None else warm.fuse(*g, mode=mode))
         for mode in ((None,) if fermionic else ("insert", "concat")):
             y = x.fuse(*g) if mode is None else x.fuse(*g, mode=mode)
             check_types(S, f"fuse[{mode}]", y, x)
